@@ -258,12 +258,8 @@ def _make_proxies():
     }
 
 
-_EC_ORDERS = {
-    'secp256r1': 0xFFFFFFFF00000000FFFFFFFFFFFFFFFFBCE6FAADA7179E84F3B9CAC2FC632551,
-    'secp384r1': 0xFFFFFFFFFFFFFFFFFFFFFFFFFFFFFFFFFFFFFFFFFFFFFFFFC7634D81F4372DDF581A0DB248B0A77AECEC196ACCC52973,
-    'secp521r1': 0x01FFFFFFFFFFFFFFFFFFFFFFFFFFFFFFFFFFFFFFFFFFFFFFFFFFFFFFFFFFFFFFFFFFFFFFFFFFFFFFFFFFFFFFFFFFFA51868783BF2F966B7FCC0148F709A5D03BB5C9B8899C47AEBB6FB71E91386409,
-    'secp256k1': 0xFFFFFFFFFFFFFFFFFFFFFFFFFFFFFFFEBAAEDCE6AF48A03BBFD25E8CD0364141,
-}
+from .ref.algo import EC_ORDERS as _O  # noqa: E402
+_EC_ORDERS = {'secp256r1': _O['p256'], 'secp384r1': _O['p384'], 'secp521r1': _O['p521'], 'secp256k1': _O['secp256k1']}
 
 
 # --------------------------------------------------------------------------
